@@ -8,7 +8,7 @@ LEVEL = "proof"
 RULE = ("Lean (output assembly): every printed line names the target file — diagnostics come only from the target parser's Errors, hints only from articles recorded under the target's name — for ANY "
         "behaviour of the evaluations of preloaded files; the facts about main.go this rests on are re-extracted each run. End-to-end: generated and eligible corpus programs are split at top-level "
         "statement boundaries into 1-3 preload files plus a target (.ti-loader.json); ti's output for the target (plain and -i) must equal the concatenated program's output restricted to the target's "
-        "lines with rows rebased, and no line may name a preloaded file. Non-trivial = the concatenated run prints something in the target's part.")
+        "lines with rows rebased, and no line may name a preloaded file; plus pairs of independent, identically laid-out files (the same receiver, method, class and variable names on the same rows, singleton definitions included). Non-trivial = the concatenated run prints something in the target's part.")
 
 
 def top_level_cuts(text):
@@ -17,10 +17,47 @@ def top_level_cuts(text):
     return lines, cuts
 
 
+def mirrored(rng, k):
+    """two independent files laid out identically (same names on the same rows: singleton definitions, methods, classes, variables)
+    that differ in the names they define; anything keyed by (name, row) without the file would mix them up"""
+    shapes = [rng.choice(["single", "single", "var", "def", "class"]) for _ in range(rng.randint(1, 3))]
+    files = []
+    for side in ("p", "t"):
+        lines = []
+        for i, sh in enumerate(shapes):
+            if sh == "single":
+                lines += ["mo%d = Object.new" % i, "def mo%d.%sm%d_%d" % (i, side, k, i), "  %s" % rng.choice(["1", "'s'", ":a"]), "end"]
+            elif sh == "var":
+                lines += ["mv%d = %s" % (i, rng.choice(["1", "'s'", "1.5", "[1]"]))]
+            elif sh == "def":
+                lines += ["def %sf%d_%d(a)" % (side, k, i), "  a", "end"]
+            else:
+                lines += ["class Mk%d_%d" % (k, i), "  def %sc%d_%d" % (side, k, i), "    2", "  end", "end"]
+        files.append(lines)
+    pre, tgt = files
+    # the target uses its own definitions and (wrongly, for reassigned receivers) the preloaded ones
+    for i, sh in enumerate(shapes):
+        if sh == "single":
+            tgt += ["dbtp mo%d.tm%d_%d" % (i, k, i), "mo%d.pm%d_%d.nope" % (i, k, i)]
+        elif sh == "var":
+            tgt += ["dbtp mv%d" % i]
+        elif sh == "def":
+            tgt += ["dbtp tf%d_%d(1)" % (k, i), "dbtp pf%d_%d('s')" % (k, i)]
+        else:
+            tgt += ["mk = Mk%d_%d.new" % (k, i), "dbtp mk.tc%d_%d" % (k, i), "dbtp mk.pc%d_%d" % (k, i), "mk.zz_nope"]
+    return "\n".join(pre) + "\n", "\n".join(tgt) + "\n"
+
+
 def run_e2e(ctx, n, tag):
     rng = ctx.rng
     cfg = os.path.join(common.REPO, "test", ".ti-config")
     jobs = []
+    for k in range(max(8, n // 4)):
+        pre, tgt = mirrored(rng, k)
+        d = os.path.join(ctx.tmp, "c18%s_m%d" % (tag, k))
+        os.makedirs(d)
+        shutil.copytree(cfg, os.path.join(d, ".ti-config"))
+        jobs.append((d, pre + tgt, [pre], tgt, pre.count("\n")))
     for k in range(n):
         text = progs.gen_program(rng, cfg, level=rng.choice([2, 3, 4]), nstmts=rng.randint(5, 12))
         lines, cuts = top_level_cuts(text)
